@@ -1,4 +1,5 @@
 import KoordVerif.Model.C08
+import KoordVerif.Proofs.C08ExtConcThm
 /-
 C08 — property theorems (DESIGN.md §4 C08).
  1. deletePod is the exact inverse of addPod (same metric in force)                  `delete_add_inverse`
@@ -8,6 +9,12 @@ C08 — property theorems (DESIGN.md §4 C08).
  3. Filter: pass only if every thresholded resource is within the rounded percentage `filter_pass_within`, `filter_pass_exact`,
     on the from-scratch estimate of the reached state                                `filter_pass_sound`
  4. missing / expired metrics behave as the switch table says                        `filter_no_metric`, `filter_expired_table`, `filter_expired_only_if`
+ 5. concurrency (small-step model Proofs/C08ExtConc.lean of one sync.Map entry, the nodeInfo lock, the `deleted`
+    flag and the two-attempt retry; shape tied to the source by Ties/C08.lean): an add-type event racing with one
+    other event is never lost and the outcome is a linearization, under EVERY interleaving     `conc_no_event_lost`,
+    `conc_assign_vs_node_delete_keeps_pod`, `conc_metric_vs_pod_delete_keeps_metric`; the pre-repair statement order,
+    a single attempt, a missing re-check under the lock, and two cleanups during one call each lose an event
+    (`conc_*_counterexample`)
 -/
 namespace KoordVerif.C08
 
@@ -569,6 +576,85 @@ below the reported usage it starts from. -/
 theorem delta_nonneg (x : Vec) (y : Option Vec) : ∀ v ∈ delta x y, 0 ≤ v := by
   intro v hv
   cases y <;> simp only [delta, List.mem_map] at hv <;> obtain ⟨w, _, rfl⟩ := hv <;> unfold pos <;> split <;> omega
+
+/-! ### 5. concurrency: the `deleted`-flag retry protocol (model and proofs in Proofs/C08ExtConc*.lean) -/
+
+open Conc in
+/-- **no event is lost under any interleaving.**  For every state the node's map entry can be in between events
+(`inits`: absent, or live and not empty) and every race of one add-type event (pod assign, NodeMetric add/update)
+with one other event (`races`), in every reachable state in which both goroutines have returned the cache shows
+the result of running the two events in SOME order one after the other, and neither call gave up. -/
+theorem conc_no_event_lost (init : Option (Bool × Bool × Bool)) (hi : init ∈ inits) (pa pb : List Op) (hr : (pa, pb) ∈ races)
+    (s : St) (h : Reach asWritten (start init pa pb) s) (hq : s.quiescent = true) :
+    s.view ∈ seqResults (pa.length + pb.length) (viewOf init) pa pb ∧ ∀ t ∈ s.ts, t.dropped = 0 :=
+  no_event_lost init hi pa pb hr s h hq
+
+open Conc in
+/-- node delete ∥ pod assign: the assigned pod is in the cache afterwards. -/
+theorem conc_assign_vs_node_delete_keeps_pod (init : Option (Bool × Bool × Bool)) (hi : init ∈ inits)
+    (s : St) (h : Reach asWritten (start init [.assign] [.delMetric]) s) (hq : s.quiescent = true) :
+    s.view.2.2 = true :=
+  assign_vs_node_delete_keeps_pod init hi s h hq
+
+open Conc in
+/-- last pod deleted ∥ NodeMetric added: the report is in force afterwards. -/
+theorem conc_metric_vs_pod_delete_keeps_metric (init : Option (Bool × Bool × Bool)) (hi : init ∈ inits) (pb : List Op)
+    (hb : pb = [.delOther] ∨ pb = [.delU])
+    (s : St) (h : Reach asWritten (start init [.setMetric] pb) s) (hq : s.quiescent = true) :
+    s.view.1 = true :=
+  metric_vs_pod_delete_keeps_metric init hi pb hb s h hq
+
+open Conc in
+/-- the statement order before repair b9ed11f (`deleted = true`, then CompareAndDelete) loses the pod: both attempts
+load the same dying entry (finding C08:conc:event-lost-in-cleanup-race; reproduced on the real code). -/
+theorem conc_pre_repair_counterexample :
+    ¬ (∀ s, Reach preRepair (start (some (true, false, false)) [.assign] [.delMetric]) s → s.quiescent = true →
+        s.view.2.2 = true) :=
+  pre_repair_counterexample
+
+open Conc in
+/-- … and the NodeMetric in the mirrored race. -/
+theorem conc_pre_repair_counterexample_metric :
+    ¬ (∀ s, Reach preRepair (start (some (false, true, false)) [.setMetric] [.delOther]) s → s.quiescent = true →
+        s.view.1 = true) :=
+  pre_repair_counterexample_metric
+
+open Conc in
+/-- the pre-repair order is fine if a critical section is taken to be indivisible — the reading of the design
+comment in the source; the flag is read without the lock, so it is not. -/
+theorem conc_pre_repair_sections_no_event_lost (init : Option (Bool × Bool × Bool)) (hi : init ∈ inits) (pa pb : List Op)
+    (hr : (pa, pb) ∈ races) (s : St) (h : Reach preRepairSections (start init pa pb) s) (hq : s.quiescent = true) :
+    s.view ∈ seqResults (pa.length + pb.length) (viewOf init) pa pb ∧ ∀ t ∈ s.ts, t.dropped = 0 :=
+  pre_repair_sections_no_event_lost init hi pa pb hr s h hq
+
+open Conc in
+/-- the shape without the retry (one attempt) loses the pod. -/
+theorem conc_no_retry_counterexample :
+    ¬ (∀ s, Reach noRetry (start (some (true, false, false)) [.assign] [.delMetric]) s → s.quiescent = true →
+        s.view.2.2 = true) :=
+  no_retry_counterexample
+
+open Conc in
+/-- the shape without the second look at the flag under the lock loses the pod. -/
+theorem conc_no_recheck_counterexample :
+    ¬ (∀ s, Reach noRecheck (start (some (true, false, false)) [.assign] [.delMetric]) s → s.quiescent = true →
+        s.view.2.2 = true) :=
+  no_recheck_counterexample
+
+open Conc in
+/-- the documented limit of the source ("we only try 2 times"): two cleanups of the entry during ONE assign defeat
+both attempts … -/
+theorem conc_two_cleanups_counterexample :
+    ¬ (∀ s, Reach asWritten (start (some (true, false, false)) [.assign] [.delMetric, .setMetric, .delMetric]) s →
+        s.quiescent = true → s.view.2.2 = true) :=
+  two_cleanups_counterexample
+
+open Conc in
+/-- … three attempts would survive them. -/
+theorem conc_two_cleanups_three_attempts_ok (s : St)
+    (h : Reach { asWritten with bound := 3 } (start (some (true, false, false)) [.assign] [.delMetric, .setMetric, .delMetric]) s)
+    (hq : s.quiescent = true) : s.view.2.2 = true :=
+  two_cleanups_three_attempts_ok s h hq
 
 /-! ### non-vacuity -/
 
